@@ -197,6 +197,54 @@ static void run_d(int bound)
     vk_violation("C05", "ledgers-after-threads", key, "%d descriptor(s), %d block(s) left", vk_fd_ledger_open_count(), vk_heap_live_count());
 }
 
+/* ---------------------------------------------------------------- (E) one thread's start fails after the fork while another thread's child runs and exits */
+static void *body_f(void *arg)
+{
+  (void) arg;
+  static const char *const missing[] = { "/nonexistent/c20-program", NULL };
+  reproc_t *p = reproc_new();
+  reproc_options o;
+  memset(&o, 0, sizeof o);
+  vk_script("E X99"); /* same shape as the other thread's: scripts are handed out in fork order */
+  vk_api_seq = 4001;
+  for (int round = 0; round < 2; round++) {
+    int r = reproc_start(p, missing, o);
+    if (r != -ENOENT) vk_violation("C20", "concurrent-failed-start", key, "start of a missing program returned %s", hx_errname(r));
+    if (round == 0) vk_script("E X99");
+  }
+  reproc_destroy(p);
+  vk_api_seq = 0;
+  return NULL;
+}
+
+static void run_e(int bound)
+{
+  memset(&vk_cfg, 0, sizeof vk_cfg);
+  vk_cfg.sched_on = 1;
+  vk_cfg.sched_bound = bound;
+  vk_cfg.vlimit = 40;
+  snprintf(key, sizeof key, "h_c20|life-cycle+failing-starts|preemptions<=%d", bound);
+  hx_desc("%s", key);
+  snprintf(key, sizeof key, "h_c20|life-cycle+failing-starts");
+  hx_begin();
+  static struct tb t[1];
+  memset(t, 0, sizeof t);
+  t[0].id = 1;
+  int a = vk_thread_create(body_b, &t[0]);
+  int b = vk_thread_create(body_f, NULL);
+  vk_thread_join(a);
+  vk_thread_join(b);
+  int used = S->used[K_SCHED];
+  vk_hit(used == 0 ? CL_PREEMPT0 : used == 1 ? CL_PREEMPT1 : CL_PREEMPT2);
+  vk_obs("life cycle beside failing starts: %d", t[0].ok);
+  if (vk_bad_waits || vk_bad_kills)
+    vk_violation("C20", "cross-talk-reap", key, "%d waitpid and %d kill call(s) did not name the caller's own live child (a wait for any child takes another thread's child)", vk_bad_waits, vk_bad_kills);
+  if (vk_double_closes || vk_foreign_closes)
+    vk_violation("C20", "cross-talk-close", key, "the library closed %d descriptor(s) twice and %d that were not its own", vk_double_closes, vk_foreign_closes);
+  if (vk_fd_ledger_open_count() || vk_heap_live_count())
+    vk_violation("C05", "ledgers-after-threads", key, "%d descriptor(s), %d block(s) left", vk_fd_ledger_open_count(), vk_heap_live_count());
+}
+
 /* ---------------------------------------------------------------- (A) reader and writer on one child */
 static reproc_t *PA;
 static struct vk_child *CA;
@@ -310,7 +358,7 @@ static void run_c(void)
   vk_thread_join(b);
 }
 
-static long c20_n(int tier) { return tier ? 6 : 5; }
+static long c20_n(int tier) { return tier ? 7 : 6; }
 static void c20_run(int tier, long cfg)
 {
   switch (cfg) {
@@ -319,7 +367,8 @@ static void c20_run(int tier, long cfg)
     case 2: run_c(); break;
     case 3: run_b(2, 1, 1); break;
     case 4: run_d(tier ? 2 : 1); break;
-    case 5: run_b(3, 0, 0); break; /* three threads: every free alternative (blocked calls, joins, exits), no preemption */
+    case 5: run_e(tier ? 2 : 1); break;
+    case 6: run_b(3, 0, 0); break; /* three threads: every free alternative (blocked calls, joins, exits), no preemption */
   }
 }
 
